@@ -80,6 +80,7 @@ type VC struct {
 	varMemo   map[*Term]*big.Int
 	varIDs    map[*Term]int
 	swarDone  map[string]bool
+	cleanVars map[*Term]bool
 	ghostParent map[int]int
 	modelTerms []modelTerm
 }
@@ -143,6 +144,9 @@ func (vc *VC) newEpoch() int {
 func (vc *VC) heapSort(key string) Sort {
 	if s, ok := vc.sortOf[key]; ok {
 		return s
+	}
+	if _, ok := boolClasses.Load(key); ok {
+		return SArrIB
 	}
 	return SArrII
 }
